@@ -2,4 +2,5 @@ SPECIFICATION RSpec
 CONSTANTS MaxFields = 2  ZLen = 3  SecondRich = FALSE
 INVARIANT IdentityAccepted
 INVARIANT DropRejected
+INVARIANT DsDropAccepted
 CHECK_DEADLOCK FALSE
